@@ -91,6 +91,13 @@ pub fn bind_closure_expr(
     closure_expr: LuaClosureExpr,
     current: FlowId,
 ) -> Option<()> {
+    // A closure created in dead code is still analysed on its own: its body starts a fresh flow
+    // instead of inheriting the unreachable one (which would switch off narrowing inside it).
+    let current = if current == binder.unreachable {
+        binder.start
+    } else {
+        current
+    };
     bind_each_child(binder, LuaAst::LuaClosureExpr(closure_expr), current);
     Some(())
 }
